@@ -1556,7 +1556,8 @@ impl Melda {
             });
             let mut c_r: std::sync::MutexGuard<'_, HashMap<String, Map<String, Value>>> =
                 c.lock().unwrap();
-            let root = c_r.get(start).expect("root_object_not_found");
+            // The root may be tracked but deleted (e.g. after a document with another root identifier)
+            let root = c_r.get(start).ok_or_else(|| anyhow!("no_root"))?;
             let root = Value::from(root.clone());
             let result = unflatten(&mut c_r, &root)
                 .unwrap()
